@@ -11,7 +11,7 @@ import numpy
 from lib import common as C
 
 PROP = "C10"
-PROPS_FILES = []  # filled by the builder
+PROPS_FILES = ["Props/C10.v"]
 ASSUMPTIONS = [
   "reading of 'any history' (fixed with the coordinator): history rows are typed configurations - values of int parameters are "
   "integral (possibly outside the range), categorical values are ints (possibly not among the elements), grid values are numbers "
